@@ -67,6 +67,25 @@ fn main() {
             let code = dispatch!(id.as_str(), replay, &path, &doc);
             std::process::exit(code);
         }
+        "fuzzone" => {
+            // run one libFuzzer input through the fuzz entry point (debugging aid): pv fuzzone <ID> <file>
+            struct V(Vec<u8>);
+            impl props::Visitor for V {
+                type Out = ();
+                fn visit<P: Property>(self, prop: &P) {
+                    match fuzz_one(prop, &load_known(), &self.0) {
+                        FuzzOutcome::NoCase => println!("no case"),
+                        FuzzOutcome::Held { nontrivial } => println!("held (nontrivial: {nontrivial})"),
+                        FuzzOutcome::Known(id) => println!("known finding {id}"),
+                        FuzzOutcome::Violation(p, f) => println!("VIOLATION property={} replay={}\n  {}: {}", prop.id(), p.display(), f.sig, f.msg),
+                    }
+                }
+            }
+            let data = std::fs::read(&args[3]).expect("read input");
+            if props::dispatch(&args[2], V(data)).is_none() {
+                usage();
+            }
+        }
         "probe" => {
             // debugging aid: solve the model of a replay file under several configurations
             let text = std::fs::read_to_string(&args[2]).expect("read file");
